@@ -24,7 +24,9 @@ A. luna.gateware.usb.usb3.link.idle.IdleHandshakeHandler
 
 B. luna.gateware.usb.usb3.link.timers.LinkMaintenanceTimers(ss_clock_frequency = k * 100 kHz), N = 10 us * f cycles,
    M = 1 ms * f cycles (exact integers for these f).  Mostly k in 10..40 (M = 1000..4000 cycles); some cases at 125 MHz with
-   only the keepalive timer reaching its limit; rarely (1 % quick, 3 % thorough) a full 125 MHz case (M = 125000).
+   only the keepalive timer reaching its limit; 15 % of the quick cases (5 % thorough) are a full 125 MHz case (M = 125000,
+   17-bit counter): a few early events, optionally a short drop of enable, then one silence of M+2..M+60 (60 %: the strobe must
+   come), M / M+1 (15 %) or M-3..M-1 (25 %: it must not) cycles and nothing else.
    Workload: independent schedules for `link_command_transmitted`, for `link_command_received` / `packet_received` (one,
    the other or both) and for `enable`: gaps of 1-3 cycles, N-2..N+3 / M-3..M+3, half the interval, random, long (beyond the
    counter roll-over); `enable` dropped for 1..N+3 (or M/4) cycles at random times and, directed, 0-5 cycles before a timer
@@ -52,7 +54,7 @@ absolute time (cycles at the block's own `ss_clock_frequency` parameter).
 from rv.sim import Bench
 
 PROPERTY = "C44"
-CASES = {"quick": 200, "thorough": 3000}
+CASES = {"quick": 160, "thorough": 3000}
 TIMEOUT = {"quick": 1200, "thorough": 6 * 3600}
 RULE = ("case = (A) 40-70 idle-handshake episodes with directed word patterns around the rise of enable (idle pair at offsets -3..+8, "
         "gaps made of invalid-zero / invalid-garbage / data / K words, half-idle straddles, short enables, re-enable without idle) plus (B) one "
@@ -69,7 +71,8 @@ REQUIRED_BINS = [
     "tm_tx_gap_N_minus_1", "tm_tx_gap_N", "tm_tx_gap_N_plus_1", "tm_rx_gap_M_minus_1", "tm_rx_gap_M", "tm_rx_gap_M_plus_1",
     "tm_rx_by_link_command", "tm_rx_by_packet", "tm_disable_before_keepalive", "tm_disable_before_recovery",
     "tm_keepalive_in_window", "tm_recovery_in_window", "tm_keepalive_silence_broken_early", "tm_recovery_silence_broken_early",
-    "tm_keepalive_repeat", "tm_f125_keepalive",
+    "tm_keepalive_repeat", "tm_f125_keepalive", "tm_f125_recovery", "tm_f125_recovery_must_fire", "tm_f125_recovery_in_window",
+    "tm_f125_recovery_after_enable_drop",
 ]
 REQUIRED_EVENTS = ["hs_cycles", "hs_complete_cycles", "hs_valid_idle_words", "tm_cycles", "tm_keepalive_strobes", "tm_recovery_strobes",
                    "tm_tx_strobes", "tm_rx_strobes"]
@@ -343,6 +346,7 @@ def _timer_schedule(rng, res, N, M, mode):
             g = rollover + N + rng.choice([-1, 0, 1, 2, N])
         t += max(1, g)
     rx, t = {}, rng.randint(3, 8)
+    extra_disabled = set()
     near = [-3, -2, -1, -1, 0, 0, 1, 1, 2, 3]
     while t < T:
         rx[t] = rng.choice(["lcr", "pr", "both", "lcr", "pr"])
@@ -353,10 +357,26 @@ def _timer_schedule(rng, res, N, M, mode):
             if t < 2000 and r < 0.5:
                 g = rng.randint(1, 1000)
             else:
-                g = M + rng.choice(near)
+                base = t
+                if rng.random() < 0.4:    # enable drops shortly after the last event: the real-width counter must start again
+                    d = t + rng.randint(1, 1500)
+                    dur = rng.choice([1, 1, 2, 3, 40])
+                    extra_disabled.update(range(d, d + dur))
+                    base = d + dur - 1
+                    res.bin("tm_f125_recovery_after_enable_drop")
+                rr = rng.random()
+                if rr < 0.6:              # silence long enough that a missing or late strobe is a violation
+                    g = M + rng.choice([2, 2, 2, 3, 4, rng.randint(5, 60)])
+                    res.bin("tm_f125_recovery_must_fire")
+                elif rr < 0.75:
+                    g = M + rng.choice([0, 1])
+                    res.bin("tm_f125_recovery_boundary")
+                else:
+                    g = M - rng.choice([1, 1, 2, 3])
+                    res.bin("tm_f125_recovery_must_not_fire")
                 res.bin({-1: "tm_rx_gap_M_minus_1", 0: "tm_rx_gap_M", 1: "tm_rx_gap_M_plus_1"}.get(g - M, "tm_rx_gap_near_M"))
-                rx[t + g] = rng.choice(["lcr", "pr"])
-                T = t + g + 40
+                rx[base + g] = rng.choice(["lcr", "pr"])
+                T = base + g + 40
                 break
         elif r < 0.2:
             g = rng.randint(1, 50)
@@ -371,7 +391,7 @@ def _timer_schedule(rng, res, N, M, mode):
             g = M // 2 + rng.randint(-2, 2)
         t += max(1, g)
     # enable: low for the first two cycles, then drops
-    disabled = {0, 1, 2}
+    disabled = {0, 1, 2} | extra_disabled
     n_drops = rng.choice([0, 1, 2, 3, 4]) if mode != "rec125" else 0
     for _ in range(n_drops):
         how = rng.choice(["random", "before_keepalive", "before_recovery"])
@@ -397,10 +417,10 @@ def _timer_schedule(rng, res, N, M, mode):
 def _run_timers(rng, res, tier):
     from luna.gateware.usb.usb3.link.timers import LinkMaintenanceTimers
     r = rng.random()
-    p_full = 0.01 if tier == "quick" else 0.03
+    p_full = 0.15 if tier == "quick" else 0.05
     if r < p_full:
         mode, k = "rec125", 1250
-    elif r < p_full + 0.15:
+    elif r < p_full + 0.18:
         mode, k = "ka_only", 1250
         res.bin("tm_f125_keepalive")
     else:
@@ -427,12 +447,15 @@ def _run_timers(rng, res, tier):
             res.violation(mech, "[timers f=%d Hz N=%d M=%d] %s" % (f, N, M, detail))
 
     def driver():
+        last = [None] * 4
+        ins = (dut.enable, dut.link_command_transmitted, dut.link_command_received, dut.packet_received)
         for t in range(T):
             kind = rx.get(t)
-            b.set(dut.enable, 0 if t in disabled else 1)
-            b.set(dut.link_command_transmitted, 1 if t in tx else 0)
-            b.set(dut.link_command_received, 1 if kind in ("lcr", "both") else 0)
-            b.set(dut.packet_received, 1 if kind in ("pr", "both") else 0)
+            vals = (0 if t in disabled else 1, 1 if t in tx else 0, 1 if kind in ("lcr", "both") else 0, 1 if kind in ("pr", "both") else 0)
+            for i in range(4):
+                if vals[i] != last[i]:          # only changes are handed to the simulator (long silent stretches)
+                    last[i] = vals[i]
+                    b.set(ins[i], vals[i])
             yield
 
     class Silence:
@@ -458,6 +481,8 @@ def _run_timers(rng, res, tier):
                 elif q <= self.hi:
                     if not self.ok:
                         res.bin("tm_%s_in_window" % self.name)
+                        if mode == "rec125":
+                            res.bin("tm_f125_%s_in_window" % self.name)
                     self.ok = True
                 else:
                     res.bin("tm_%s_repeat" % self.name)
@@ -504,4 +529,4 @@ def run_case(rng, tier, res):
     res.cycles = c1 + c2
     bins = res.bins
     res.nontrivial = bins.get("hs_completed", 0) >= 5 and bins.get("hs_not_completed", 0) >= 5 \
-        and bins.get("tm_keepalive_in_window", 0) >= 3 and (bins.get("tm_recovery_in_window", 0) >= 1 or bins.get("tm_f125_keepalive", 0) >= 1)
+        and bins.get("tm_keepalive_in_window", 0) >= 3 and (bins.get("tm_recovery_in_window", 0) >= 1 or bins.get("tm_f125_keepalive", 0) >= 1 or bins.get("tm_f125_recovery", 0) >= 1)
